@@ -139,6 +139,23 @@ def run(rep: C.Report) -> None:
         rep.add(C.Ob("Ob1-3 kernels", "E1 CrossHair", [], "", verdict=C.NOT_ENCODABLE, detail=f"{type(e).__name__}: {e}"))
 
 
+    # a title that occurs twice in a dump (or is added again later) is stored as its LAST occurrence, whatever the two records
+    # are (text / redirect / other content model): the read-after-write histories of C10 on the real SQLite store
+    try:
+        from props import C10 as P10
+
+        xh.check_harness(
+            rep,
+            P10.H,
+            {"^hist": dict(name="Ob4 a page added twice is stored as its last occurrence (text, redirect or another content model), on the real store", functions=["core.py:Wtp.add_page (upsert)", "core.py:Wtp.get_page"], bounds="shared with C10 Ob2/Ob3: all histories of 3 (thorough 4) operations over 11 operation kinds x 2 titles")},
+            timeout=90 if quick else 600,
+            src=open(P10.H).read() + "\n" + P10.gen(quick),
+            batch=4,
+            twins=False,
+            select="^hist" if quick else "^hist4",
+        )
+    except Exception as e:  # noqa: BLE001
+        rep.add(C.Ob("Ob4 duplicate titles", "E1 CrossHair", [], "", verdict=C.NOT_ENCODABLE, detail=f"{type(e).__name__}: {e}"))
     try:
         from props.C04 import template_body_pipeline
 
